@@ -18,6 +18,26 @@ THEOREMS = [
     "Typedpy.C16.stub_sigkw_iff", "Typedpy.C16.sig_kwargs_not_admitted_iff", "Typedpy.C16.stub_sigkw_agree_partial",
     "Typedpy.C16.stub_sigkw_disagree", "Typedpy.C16.stub_kw_matches_constructor_in_off_region",
     "Typedpy.C16.inherited_addl_off_counterexample", "Typedpy.C16.C16_signature_statement_false",
+    "Typedpy.C16.stub_init_text_parses",
+    "Typedpy.C16.stub_helper_text_parses",
+    "Typedpy.C16.init_text_parses_of_mandatory_first",
+    "Typedpy.C16.stub_class_header_parses",
+    "Typedpy.C16.stub_attr_text_parses",
+    "Typedpy.C16.stub_method_text_roundtrip",
+    "Typedpy.C16.stub_init_dupfree_iff",
+    "Typedpy.C16.stub_helper_dupfree_iff",
+    "Typedpy.C16.name_clash_counterexample",
+    "Typedpy.C16.stub_text_example",
+    "Typedpy.C16.parse_rejects_examples",
+    "Typedpy.C16.stubD_names_agree_iff",
+    "Typedpy.C16.stubD_required_agree",
+    "Typedpy.C16.stubD_kw_iff",
+    "Typedpy.C16.stubD_sigkw_iff",
+    "Typedpy.C16.stubD_sigkw_is_define",
+    "Typedpy.C16.stubD_mandatory_first",
+    "Typedpy.C16.stubD_init_text_parses",
+    "Typedpy.C16.stubD_diamond_example",
+    "Typedpy.C16.diamond_names_counterexample",
 ]
 RULE = ("generated modules: 2-7 Structure classes (annotation and assignment style; inheritance from 1-2 earlier "
         "classes, Partial/Omit/Pick/Extend/AllFieldsRequired bases, ImmutableStructure; _required/_optional/"
@@ -48,14 +68,14 @@ TRUSTED_EXTRA = [
 
 def cases(rng, tier):
     S.reset_work()
-    cs = ([json.loads(json.dumps(c)) for c in S.CORPUS] + S.zoo_cases(rng, tier) + S.sig_cases(rng, tier) + S.const_cases(rng, tier) + S.mi_cases(rng, tier)
+    cs = ([json.loads(json.dumps(c)) for c in S.CORPUS] + S.zoo_cases(rng, tier) + S.sig_cases(rng, tier) + S.const_cases(rng, tier) + S.mi_cases(rng, tier) + S.enumvals_cases(rng, tier)
           + S.gen_cases(rng, tier, 450 if tier == "quick" else 6000))
     S.prepare(cs)
     return cs
 
 
 def search_cases(rng, tier):
-    cs = S.zoo_cases(rng, tier) + S.sig_cases(rng, tier) + S.const_cases(rng, tier) + S.mi_cases(rng, tier) + S.gen_cases(rng, "thorough", 150)
+    cs = S.zoo_cases(rng, tier) + S.sig_cases(rng, tier) + S.const_cases(rng, tier) + S.mi_cases(rng, tier) + S.enumvals_cases(rng, tier) + S.gen_cases(rng, "thorough", 150)
     S.prepare(cs)
     return cs
 
@@ -265,6 +285,43 @@ def judge(case, impl, model):
                     fails.append(("inherited-additional-properties", f"{name}.{mname}: **kw although unknown keywords are rejected"))
                 else:
                     fails.append((f"kw-mismatch:{mname}", f"{name}: stub **kw={h['kw']}, class admits additional properties={admits}"))
+    # ---- the text tie: Lean lexer + recogniser against CPython on the real and the mutated headers; the model's
+    #      token sequences against the lexed real text
+    if "text_err" in impl:
+        msgs.append("text tie failed: " + impl["text_err"])
+    mt, tp = (model or {}).get("text"), (impl.get("text") or {}).get("py")
+    if mt and tp:
+        for arr in ("defs", "muts"):
+            texts = impl["text"]["wire"][arr]
+            for i, (m, p) in enumerate(zip(mt[arr], tp[arr])):
+                lean_ok = bool(m.get("lex")) and m.get("parse") is not None
+                what = "real header" if arr == "defs" else f"mutated header ({tp['mut_ops'][i]})"
+                if lean_ok and p is None:
+                    msgs.append(f"recogniser accepts a {what} that CPython rejects: `{texts[i][:160]}`")
+                elif p is not None and not lean_ok:
+                    if tp[arr + "_subset"][i]:
+                        msgs.append(f"recogniser rejects a {what} that CPython accepts: `{texts[i][:160]}`")
+                elif lean_ok and (m["parse"]["name"] != p["name"] or m["parse"]["params"] != p["params"]):
+                    msgs.append(f"recogniser reads {m['parse']['params']} where CPython reads {p['params']}: `{texts[i][:160]}`")
+        for i, (m, p) in enumerate(zip(mt["cls"], tp["cls"])):
+            lean = m.get("parse") if m.get("lex") else None
+            if (lean is None) != (p is None) or (lean is not None and lean != p):
+                if p is None or lean is not None or in_names_only(impl["text"]["wire"]["cls"][i]):
+                    msgs.append(f"class header `{impl['text']['wire']['cls'][i][:120]}`: recogniser {lean} CPython {p}")
+        if "syntax_err" not in impl:
+            lean_dup = any(m.get("parse") and not m["parse"]["dupFree"] for m in mt["defs"])
+            py_dup = "compile_err" in impl and "duplicate argument" in impl["compile_err"]["msg"]
+            if lean_dup != py_dup:
+                msgs.append(f"duplicate parameter names: model {lean_dup}, compile() {py_dup}")
+        for c in mt["classes"]:
+            if not c["domain"]:
+                continue
+            for k in ("init", "shallowClone", "fromOtherClass", "fromTrustedData", "header"):
+                e = c.get(k)
+                if e is not None and not e["eq"]:
+                    msgs.append(f"{c['name']}.{k} text: model writes `{e['model'][:200]}`, the stub has something else")
+            if c["attrBad"]:
+                msgs.append(f"{c['name']}: attribute lines {c['attrBad']} differ from the model's text")
     # ---- every function / method signature: same parameter names and kinds as inspect.signature
     site_of = {}
     for it in case["mod"]["items"]:
@@ -321,6 +378,12 @@ def judge(case, impl, model):
         if fn not in impl["stub"]["funcs"]:
             fails.append(("function-missing", f"function {fn} is not declared in the stub"))
     return _m(msgs), fails
+
+
+def in_names_only(header):
+    """a class header whose bases are plain dotted names (the subset `parseClass` models)"""
+    import re
+    return re.fullmatch(r"class [A-Za-z_][A-Za-z0-9_]*(\(([A-Za-z_][A-Za-z0-9_.]*(, )?)*\))?:", header) is not None
 
 
 def _m(msgs):
